@@ -13,6 +13,7 @@ import M17.Model.Prbs
 import M17.Model.Viterbi
 import M17.Model.Decoder
 import M17.Model.Queue
+import M17.Model.Llr
 
 open M17
 
@@ -184,6 +185,13 @@ def handle (st : DrvState) (op : String) (a : List Int) : DrvState × String :=
     ({ st with dec := o.state }, showStep o)
   | "qseq", cap :: toks => (st, qSeq cap.toNat toks)
   | "qtrace", cap :: ev => (st, qTrace cap.toNat ev)
+  | "llr", d :: w :: pats =>
+    let tbl := Llr.table (d != 0) w.toNat
+    let outs := pats.flatMap fun b =>
+      let v := if d != 0 then Llr.ofDoubleBits (if b < 0 then b + 2 ^ 64 else b).toNat else Llr.ofFloatBits b.toNat
+      let r := Llr.llr tbl v
+      [r.1, r.2]
+    (st, joinInts outs)
   | _, _ => (st, "bad-op")
 
 partial def loop (h : IO.FS.Stream) (out : IO.FS.Stream) (st : DrvState) : IO Unit := do
